@@ -158,11 +158,13 @@ def run_one(machine, node, verif_seed, prop, idx, opts):
         case = machine.generate(rng, opts)
     except Discard as d:
         return {"kind": "discard", "why": str(d)}
-    return execute_case(machine, node, case, opts, seed=seed)
+    return execute_case(machine, node, case, opts, seed=seed, perturb=perturb)
 
 
-def execute_case(machine, node, case, opts, seed=None):
+def execute_case(machine, node, case, opts, seed=None, perturb=0xA5):
     rec = Recorder(keep_events=opts.get("keep_events", False))
+    rec.perturb = perturb      # the allocator fill byte in force (machines may flip it to cross-check a result)
+    node.perturb(perturb)
     res = {"kind": "ok"}
     try:
         node.reset()
@@ -297,8 +299,8 @@ def run_single_in_child(machine, libpath, fn_name, payload, opts, timeout=120.0,
             signal.setitimer(signal.ITIMER_REAL, timeout)
             node = Node(libpath)
             if fn_name == "case":
-                node.perturb(payload.get("perturb", 0xA5) if isinstance(payload, dict) else 0xA5)
-                res = execute_case(machine, node, payload["case"], opts)
+                res = execute_case(machine, node, payload["case"], opts,
+                                   perturb=payload.get("perturb", 0xA5) if isinstance(payload, dict) else 0xA5)
             else:
                 res = run_one(machine, node, payload["verif_seed"], payload["prop"], payload["index"], opts)
             os.write(w, json.dumps(res, default=_json_default).encode())
